@@ -90,7 +90,7 @@ impl C05 {
         let input = || json!({"f": show(&f), "g": show(&g), "h": show(&h), "a": a, "b": b});
         let (lf, lg, lh) = (to_strict(&f), to_strict(&g), to_strict(&h));
         let (fs, ft, gt, hs, ht) = (f.src_type(), f.tgt_type(), g.tgt_type(), h.src_type(), h.tgt_type());
-        let kind = r.below(38);
+        let kind = r.below(39);
         match kind {
             0 => { if let Some(x) = lib(ctx, "identity", "any", &input, || S::identity(sf(a.clone()))) { typed(ctx, "identity", &x, &a, &a, &input); } }
             1 => { if let Some(x) = lib(ctx, "twist", "any", &input, || <S as SymmetricMonoidal>::twist(sf(a.clone()), sf(b.clone()))) { typed(ctx, "twist", &x, &cat(&a, &b), &cat(&b, &a), &input); } }
@@ -240,6 +240,25 @@ impl C05 {
                     let res = if kind == 34 { lib(ctx, "forget", "any", &input, || forget(&term)) } else { lib(ctx, "forget_monogamous", "any", &input, || forget_monogamous(&term)) };
                     if let Some(x) = res {
                         typed_lax(ctx, if kind == 34 { "forget" } else { "forget_monogamous" }, &x, &st.src_type(), &st.tgt_type(), &input);
+                    }
+                }
+            }
+            38 => {
+                // the persisted form is a conversion too: writing a lax diagram as JSON and reading it back returns a
+                // well-formed diagram of the same type (the same diagram, in fact)
+                let pf = gen::lax(r, &pa, 2, false);
+                let x = to_lax(&pf);
+                let input = || json!({"f": show_lax(&pf)});
+                let fo = pf.forget_q();
+                if let Some(back) = lib(ctx, "serde_round_trip", "any", &input, || serde_json::to_string(&x).ok().and_then(|t| serde_json::from_str::<L>(&t).ok())) {
+                    match back {
+                        Some(b) => {
+                            typed_lax(ctx, "serde_round_trip", &b, &fo.src_type(), &fo.tgt_type(), &input);
+                            ctx.check(from_lax_raw(&b) == pf && lax_lens(&b) == plax_lens(&pf), "serde_round_trip/returns-the-same-diagram/value/any", || json!({"input": input(), "observed": show_lax(&from_lax_raw(&b))}));
+                        }
+                        None => {
+                            ctx.check(false, "serde_round_trip/defined/value/any", || json!({"input": input()}));
+                        }
                     }
                 }
             }
@@ -445,8 +464,8 @@ impl C05 {
     }
 }
 
-const KINDS: [&str; 38] = [
-    "delete_nodes", "delete_edges",
+const KINDS: [&str; 39] = [
+    "delete_nodes", "delete_edges", "serde_round_trip",
     "forget", "forget_monogamous",
     "identity", "twist", "singleton", "tensor_operations", "tensor", "bitor", "dagger", "compose", "shr", "spider", "half_spider", "functor_map_arrow", "identity_functor",
     "optic_map_arrow", "optic_adapt", "to_strict", "from_strict", "lax::identity", "lax::twist", "lax::singleton", "lax::tensor", "lax::compose", "lax_compose", "lax::dagger",
@@ -459,7 +478,7 @@ impl Monitor for C05 {
         "C05"
     }
     fn rule(&self) -> &'static str {
-        "cases: (a) a mixed workload over 38 kinds of public constructor / operation of the strict and lax modules (identity, twist, singleton, tensor_operations, tensor, |, dagger, compose, >>, \
+        "cases: (a) a mixed workload over 39 kinds of public constructor / operation of the strict and lax modules (identity, twist, singleton, tensor_operations, tensor, |, dagger, compose, >>, \
          spider, half_spider, functor and optic application incl. adapt, Identity functors, to_strict / from_strict, lax identity / twist / singleton / tensor / compose / lax_compose / dagger / \
          spider / tensor_assign / quotient, lax functor and lax optic entry points, hypergraph coproduct / discrete / coequalize_vertices, validate() on composites) on seeded well-formed arguments: \
          every returned diagram is walked by the deep well-formedness checker (segment counts, sizes summing to value length, size codomain = sum+1, every incidence and interface entry in range, \
